@@ -76,6 +76,23 @@ func ResetRules() {
 	validator.ReplaceRule(RuleFOCT, rules.FieldsOnCorrectTypeRule.RuleFunc)
 }
 
+// SafeReset is ResetRules guarded against a rule slice that a racing swap has
+// damaged beyond what the public API can repair (a half-written entry makes
+// RemoveRule / ReplaceRule / Validate themselves panic): it reports that
+// instead of crashing. The caller must then abandon the process.
+func SafeReset(schema *ast.Schema) (err error) {
+	defer func() {
+		if p := recover(); p != nil {
+			err = fmt.Errorf("the global rule slice is damaged: resetting it through validator.RemoveRule/ReplaceRule panics: %v", p)
+		}
+	}()
+	ResetRules()
+	if got := fmt.Sprint(ProbeRules(schema)); got != "[FOCT]" {
+		return fmt.Errorf("the global rule slice cannot be reset: probe says %s", got)
+	}
+	return nil
+}
+
 // ProbeRules reports which flavours of the field-existence rule the global
 // rule set currently applies, by validating an unknown-field document with
 // the default (global) rules.
